@@ -14,6 +14,11 @@ CONSTANTS
   AllowGarbage = FALSE
   AllowPartition = FALSE
   AllowJunkPP = FALSE
+  GateNodes = {}
+  InboxCap = 1
+  VersionTest = TRUE
+  MaxDel = 0
+  ObsoleteTimeout = 1
   ConsumeNet = FALSE
   Ideal = TRUE
   Ghost = TRUE
@@ -23,6 +28,6 @@ CONSTANTS
   QRounds = 2
 SPECIFICATION Spec
 VIEW view
-INVARIANTS TypeOK TombstonesInvisible InvalidationSafe NoInventedContent SentIsWritten WatcherNeverStale VersionCountsChanges
-PROPERTIES TombstonesForwarded NoResurrection GCOnlyExpired NoExpiredTombstoneStored OnlyChangesForwarded
+INVARIANTS TypeOK TombstonesInvisible InvalidationSafe NoInventedContent SentIsWritten WatcherNeverStale PrefixWatcherNeverStale VersionCountsChanges
+PROPERTIES TombstonesForwarded NoResurrection GCOnlyExpired NoExpiredTombstoneStored OnlyChangesForwarded DeletedStaysDeleted RemovedOnlyWhenObsolete DeletedNotRevived
 CHECK_DEADLOCK FALSE
